@@ -245,14 +245,22 @@ func SigScriptsFor(t *rapid.T, tx ref.Tx, idx int) SigProgram {
 		lock = append(lock, wide(nDecl, "n_wide"), sigOp(verifyForm, 0xae))
 		// which keys sign: in order (success) most of the time
 		order := make([]int, 0, m)
-		switch rapid.IntRange(0, 5).Draw(t, "order") {
+		ordKind := rapid.IntRange(0, 6).Draw(t, "order")
+		switch ordKind {
 		case 0: // reversed subset: wrong order
 			for i := n - 1; i >= 0 && len(order) < m; i-- {
 				order = append(order, i)
 			}
-		case 1: // first key repeated
+		case 1: // one key repeated (tenth round: any key, not only the first - a key vouches for one signature only)
+			rk := 0
+			if n > 1 {
+				rk = rapid.IntRange(0, n-1).Draw(t, "repeated_key")
+			}
 			for len(order) < m {
-				order = append(order, 0)
+				order = append(order, rk)
+			}
+			if m >= 2 {
+				desc += "+one-signer-repeated"
 			}
 		default: // increasing subset
 			skip := n - m
@@ -265,6 +273,15 @@ func SigScriptsFor(t *rapid.T, tx ref.Tx, idx int) SigProgram {
 			}
 			for i := n - 1; len(order) < m; i-- { // not enough: top up (may break order)
 				order = append(order, i)
+			}
+			if ordKind == 6 && len(order) >= 2 { // (tenth round) an increasing subset in which one signer appears twice in a row
+				j := rapid.IntRange(0, len(order)-2).Draw(t, "dup_at")
+				if rapid.Bool().Draw(t, "dup_later") {
+					order[j] = order[j+1]
+				} else {
+					order[j+1] = order[j]
+				}
+				desc += "+one-signer-twice"
 			}
 		}
 		unlockOrder = []int{-1}
